@@ -889,7 +889,8 @@ macro_rules! impl_uniform {
             }
 
             fn sample<R: Rng + ?Sized>(&self, rng: &mut R) -> $base_ty<T> {
-                $base_ty::from(self.hue.sample(rng) * T::full_rotation())
+                // `self.hue` already samples degrees, between the normalized ends.
+                $base_ty::from(self.hue.sample(rng))
             }
         }
     };
